@@ -47,7 +47,11 @@ func TestDeviationModelsAreOptIn(t *testing.T) {
 	for i := 0; i < 3000; i++ {
 		in := generate(gen.New(11, "C08", i), i)
 		m0, s0 := runModel(&in, 0, 0)
-		md, sd := runModel(&in, 0, allDevs())
+		every := 0 // all models, open or not (allDevs() needs the findings file the driver loads)
+		for _, d := range devOf {
+			every |= d
+		}
+		md, sd := runModel(&in, 0, every)
 		if s0 != "" || sd != "" {
 			continue
 		}
